@@ -264,16 +264,25 @@ impl<T: Clone> Vector<T> {
     pub fn get(&self, i: usize) -> Option<&T> {
         self.e.get(i)
     }
+    // as steel-imbl 7.1: take = clone + split_off, split_off asserts index <= len, skip saturates,
+    // truncate is a no-op beyond the length
     pub fn take(&self, n: usize) -> Self {
-        Vector { e: self.e[..n.min(self.e.len())].to_vec() }
+        let mut left = self.clone();
+        let _ = left.split_off(n);
+        left
     }
     pub fn skip(&self, n: usize) -> Self {
-        Vector { e: self.e[n.min(self.e.len())..].to_vec() }
+        if n >= self.e.len() {
+            Vector::new()
+        } else {
+            Vector { e: self.e[n..].to_vec() }
+        }
     }
     pub fn truncate(&mut self, n: usize) {
         self.e.truncate(n)
     }
     pub fn split_off(&mut self, n: usize) -> Self {
+        assert!(n <= self.e.len());
         Vector { e: self.e.split_off(n) }
     }
     pub fn slice<R: core::ops::RangeBounds<usize>>(&mut self, r: R) -> Self {
